@@ -313,7 +313,11 @@ func (b *BloomSearchEngine) Stop(ctx context.Context) error {
 		stopAfter()
 		return nil
 	case <-ctx.Done():
-		// Timeout occurred
+		// Timeout occurred. The AfterFunc callback runs in its own goroutine
+		// (or whenever a custom Context gets around to it), so it may not
+		// have run yet: abort flush work here, so that no queued flush can
+		// start store work after Stop has returned the deadline error.
+		b.flushCancel()
 		return fmt.Errorf("shutdown timeout exceeded: %w", ctx.Err())
 	}
 }
